@@ -58,44 +58,74 @@ fn wipe_strategy() -> impl Strategy<Value = WipeSpec> {
         })
 }
 
+/// A pattern to look for. The harness itself must never leave a raw copy of a secret in memory it frees (a later, not fully
+/// initialised allocation of the library could pick it up and be blamed for it), so patterns are held XOR-masked and are
+/// built byte by byte from values on the stack.
 struct Secret {
     name: String,
+    /// pattern bytes XOR `MASK`
     pat: Vec<u8>,
 }
+const MASK: u8 = 0xa7;
+impl Secret {
+    fn new(name: String, raw: impl IntoIterator<Item = u8>) -> Secret {
+        let pat = raw.into_iter().map(|b| b ^ MASK).collect();
+        Secret { name, pat }
+    }
+    fn dup(&self) -> Secret {
+        let (name, pat) = (self.name.clone(), self.pat.clone());
+        Secret { name, pat }
+    }
+}
+/// wipe a harness-side temporary that held raw secrets before it is released
+fn wipe<T: zeroize::Zeroize>(mut x: T) {
+    x.zeroize();
+}
 
-/// a secret integer rendered as text (an error message, a debug string): decimal and hexadecimal digits
+/// a secret integer rendered as text (an error message, a debug string): decimal and hexadecimal digits, produced on the stack
 fn text_patterns(name: &str, v: u64) -> Vec<Secret> {
     if v >> 40 == 0 {
         return vec![];
     }
-    vec![
-        Secret { name: format!("{} as decimal text", name), pat: format!("{}", v).into_bytes() },
-        Secret { name: format!("{} as hexadecimal text", name), pat: format!("{:x}", v).into_bytes() },
-        Secret { name: format!("{} as hexadecimal text", name), pat: format!("{:X}", v).into_bytes() },
-    ]
-}
-
-fn find(block: &[u8], pat: &[u8]) -> bool {
-    if pat.is_empty() || block.len() < pat.len() {
-        return false;
-    }
-    let first = pat[0];
-    let last = block.len() - pat.len();
-    let mut i = 0;
-    while i <= last {
-        if block[i] == first && &block[i..i + pat.len()] == pat {
-            return true;
+    let digits = |base: u64, upper: bool| -> ([u8; 20], usize) {
+        let mut buf = [0u8; 20];
+        let mut n = 0;
+        let mut x = v;
+        while x > 0 {
+            let d = (x % base) as u8;
+            buf[n] = if d < 10 { b'0' + d } else if upper { b'A' + d - 10 } else { b'a' + d - 10 };
+            n += 1;
+            x /= base;
         }
-        i += 1;
+        buf[..n].reverse();
+        (buf, n)
+    };
+    let mut out = vec![];
+    for (what, base, upper) in [("decimal", 10u64, false), ("hexadecimal", 16, false), ("hexadecimal", 16, true)] {
+        let (buf, n) = digits(base, upper);
+        out.push(Secret::new(format!("{} as {} text", name, what), buf[..n].iter().copied()));
     }
-    false
+    out
 }
 
-/// Scan the blocks freed during one operation for every secret pattern of the case.
+/// Scan the blocks freed during one operation for every secret pattern of the case (one pass per block: candidate patterns
+/// are looked up by the byte at the position).
 fn scan(op: &str, cap: alloc::Captured, secrets: &[Secret], stats: &mut (u64, u64)) -> Result<(), String> {
+    let t0 = std::time::Instant::now();
+    let (nb, bytes) = (cap.blocks.len(), cap.blocks.iter().map(|b| b.len()).sum::<usize>());
+    let r = scan_inner(op, cap, secrets, stats);
+    if std::env::var("VERIF_C20_TIMING").is_ok() {
+        eprintln!("TIMING scan {:?} {} blocks={} bytes={} pats={}", t0.elapsed().as_micros(), op.split(' ').next().unwrap_or(""), nb, bytes, secrets.len());
+    }
+    r
+}
+fn scan_inner(op: &str, cap: alloc::Captured, secrets: &[Secret], stats: &mut (u64, u64)) -> Result<(), String> {
     if cap.overflow {
         return Err(format!("{} capture arena overflow during {}", INCONCLUSIVE, op));
     }
+    // (the search itself lives in a small crate of its own that the `scan` profile compiles with optimisation)
+    let pats: Vec<&[u8]> = secrets.iter().map(|s| s.pat.as_slice()).collect();
+    let matcher = scanfast::Matcher::new(&pats, MASK);
     for b in &cap.blocks {
         stats.0 += 1;
         if b.len() >= 32 {
@@ -104,15 +134,13 @@ fn scan(op: &str, cap: alloc::Captured, secrets: &[Secret], stats: &mut (u64, u6
         if b.len() < 8 {
             continue;
         }
-        for s in secrets {
-            if find(b, &s.pat) {
-                return Err(format!(
-                    "a heap block of {} bytes freed during '{}' still contains {} (not wiped before release)",
-                    b.len(),
-                    op,
-                    s.name
-                ));
-            }
+        if let Some(k) = matcher.find(b) {
+            return Err(format!(
+                "a heap block of {} bytes freed during '{}' still contains {} (not wiped before release)",
+                b.len(),
+                op,
+                secrets[k].name
+            ));
         }
     }
     Ok(())
@@ -151,24 +179,15 @@ pub fn oracle(_ctx: &RunCtx, spec: &WipeSpec, log: &mut CaseLog) -> Result<(), S
     let mut secrets: Vec<Secret> = vec![];
     for (j, r) in t.blindings.iter().enumerate() {
         for (k, s) in r.iter().enumerate() {
-            secrets.push(Secret {
-                name: format!("blinding factor [{}][{}] / recovered mask component", j, k),
-                pat: s.as_bytes().to_vec(),
-            });
+            secrets.push(Secret::new(format!("blinding factor [{}][{}] / recovered mask component", j, k), s.as_bytes().iter().copied()));
         }
     }
     if let Some(sd) = t.seed {
-        secrets.push(Secret {
-            name: "the recovery seed".into(),
-            pat: sd.as_bytes().to_vec(),
-        });
+        secrets.push(Secret::new("the recovery seed".into(), sd.as_bytes().iter().copied()));
     }
     if bits == 64 {
         for (j, v) in t.values.iter().enumerate() {
-            secrets.push(Secret {
-                name: format!("witness value [{}] (8-byte little-endian)", j),
-                pat: v.to_le_bytes().to_vec(),
-            });
+            secrets.push(Secret::new(format!("witness value [{}] (8-byte little-endian)", j), v.to_le_bytes()));
         }
     }
     if bits == 64 {
@@ -180,10 +199,7 @@ pub fn oracle(_ctx: &RunCtx, spec: &WipeSpec, log: &mut CaseLog) -> Result<(), S
         for (j, v) in t.values.iter().enumerate() {
             let off = v - t.promises[j].unwrap_or(0);
             if off != *v && off >> 40 != 0 {
-                secrets.push(Secret {
-                    name: format!("witness value [{}] minus its promise (8-byte little-endian)", j),
-                    pat: off.to_le_bytes().to_vec(),
-                });
+                secrets.push(Secret::new(format!("witness value [{}] minus its promise (8-byte little-endian)", j), off.to_le_bytes()));
             }
         }
     }
@@ -197,19 +213,14 @@ pub fn oracle(_ctx: &RunCtx, spec: &WipeSpec, log: &mut CaseLog) -> Result<(), S
             // for the scalars 0 and 1 - a transformed representation that is outside this oracle (see DESIGN.md section 3, C20)
             let ones = window.iter().filter(|b| **b == 1).count();
             if ones >= 4 && ones <= 12 {
-                let enc = |f: &dyn Fn(u64) -> Scalar| -> Vec<u8> { window.iter().flat_map(|b| f(*b).to_bytes()).collect() };
-                secrets.push(Secret {
-                    name: format!("the top 16 bits of value[{}] - promise as 0/1 scalars", j),
-                    pat: enc(&|b| Scalar::from(b)),
-                });
-                secrets.push(Secret {
-                    name: format!("the top 16 bits of value[{}] - promise as (bit - 1) scalars", j),
-                    pat: enc(&|b| Scalar::from(b) - Scalar::ONE),
-                });
-                secrets.push(Secret {
-                    name: format!("the top 16 bits of value[{}] - promise as (bit - z) scalars", j),
-                    pat: enc(&|b| Scalar::from(b) - z),
-                });
+                // (an iterator: the raw bytes only ever exist on the stack)
+                let enc = |f: fn(u64, Scalar) -> Scalar| {
+                    let w = window.clone();
+                    w.into_iter().flat_map(move |b| f(b, z).to_bytes())
+                };
+                secrets.push(Secret::new(format!("the top 16 bits of value[{}] - promise as 0/1 scalars", j), enc(|b, _| Scalar::from(b))));
+                secrets.push(Secret::new(format!("the top 16 bits of value[{}] - promise as (bit - 1) scalars", j), enc(|b, _| Scalar::from(b) - Scalar::ONE)));
+                secrets.push(Secret::new(format!("the top 16 bits of value[{}] - promise as (bit - z) scalars", j), enc(|b, z| Scalar::from(b) - z)));
             }
         }
     }
@@ -253,8 +264,8 @@ pub fn oracle(_ctx: &RunCtx, spec: &WipeSpec, log: &mut CaseLog) -> Result<(), S
         let st_big = RangeStatement::init(t.params.clone(), cs, t.promises.clone(), t.seed).map_err(|e| format!("{:?}", e))?;
         let w_big = RangeWitness::init(vals.iter().zip(t.blindings.iter()).map(|(v, r)| CommitmentOpening::new(*v, r.clone())).collect())
             .map_err(|e| format!("{:?}", e))?;
-        let mut with_big = secrets.iter().map(|s| Secret { name: s.name.clone(), pat: s.pat.clone() }).collect::<Vec<_>>();
-        with_big.push(Secret { name: format!("the out-of-range witness value [{}] (8-byte little-endian)", j), pat: big.to_le_bytes().to_vec() });
+        let mut with_big = secrets.iter().map(Secret::dup).collect::<Vec<_>>();
+        with_big.push(Secret::new(format!("the out-of-range witness value [{}] (8-byte little-endian)", j), big.to_le_bytes()));
         with_big.extend(text_patterns(&format!("the out-of-range witness value [{}]", j), big));
         let mut tr = t.transcript();
         let mut rng = tspec.rng.make();
@@ -270,6 +281,7 @@ pub fn oracle(_ctx: &RunCtx, spec: &WipeSpec, log: &mut CaseLog) -> Result<(), S
         drop(w_big);
         scan("drop(RangeWitness) holding an out-of-range value", alloc::capture_stop(), &with_big, &mut stats)?;
         drop(st_big);
+        wipe(vals);
     }
     // ---- verify with recovery (and drop of the returned masks)
     for act in [VerifyAction::RecoverAndVerify, VerifyAction::RecoverOnly] {
@@ -322,12 +334,9 @@ pub fn oracle(_ctx: &RunCtx, spec: &WipeSpec, log: &mut CaseLog) -> Result<(), S
     {
         let mut g = crate::gen::chacha(spec.bulk ^ 0x5a5a_0001);
         let stale: Vec<Scalar> = (0..2).map(|_| crate::gen::rand_scalar(&mut g)).collect();
-        let mut with_stale = secrets.iter().map(|s| Secret { name: s.name.clone(), pat: s.pat.clone() }).collect::<Vec<_>>();
+        let mut with_stale = secrets.iter().map(Secret::dup).collect::<Vec<_>>();
         for (i, s) in stale.iter().enumerate() {
-            with_stale.push(Secret {
-                name: format!("blinding factor {} left in the spare capacity of the owner's vector", i),
-                pat: s.as_bytes().to_vec(),
-            });
+            with_stale.push(Secret::new(format!("blinding factor {} left in the spare capacity of the owner's vector", i), s.as_bytes().iter().copied()));
         }
         let roomy = |r: &Vec<Scalar>| {
             let mut v = Vec::with_capacity(r.len() + 2);
@@ -362,8 +371,8 @@ pub fn oracle(_ctx: &RunCtx, spec: &WipeSpec, log: &mut CaseLog) -> Result<(), S
             ops.push(CommitmentOpening::new(extra_v, t.blindings[0].clone()));
             let moved_out = ops.pop();
             let w4 = RangeWitness::init(ops).map_err(|e| format!("{:?}", e))?;
-            let mut pats = with_stale.iter().map(|s| Secret { name: s.name.clone(), pat: s.pat.clone() }).collect::<Vec<_>>();
-            pats.push(Secret { name: "a witness value left in the spare capacity of the witness's vector of openings".into(), pat: extra_v.to_le_bytes().to_vec() });
+            let mut pats = with_stale.iter().map(Secret::dup).collect::<Vec<_>>();
+            pats.push(Secret::new("a witness value left in the spare capacity of the witness's vector of openings".into(), extra_v.to_le_bytes()));
             alloc::capture_start();
             drop(w4);
             let c = alloc::capture_stop();
@@ -374,6 +383,62 @@ pub fn oracle(_ctx: &RunCtx, spec: &WipeSpec, log: &mut CaseLog) -> Result<(), S
         alloc::capture_start();
         drop(mk);
         scan("drop(ExtendedMask) whose vector has spare capacity", alloc::capture_stop(), &with_stale, &mut stats)?;
+        wipe(stale);
+    }
+    // ---- an existing witness / opening OVERWRITTEN through Clone::clone_from by one of higher degree: whatever is released
+    // on the way held the old blinding factors
+    {
+        let mut g = crate::gen::chacha(spec.bulk ^ 0xc10e);
+        let old_r: Vec<Vec<Scalar>> = (0..cfg.m).map(|_| (0..1).map(|_| crate::gen::rand_scalar(&mut g)).collect()).collect();
+        let mut pats = secrets.iter().map(Secret::dup).collect::<Vec<_>>();
+        for (j, r) in old_r.iter().enumerate() {
+            pats.push(Secret::new(format!("blinding factor [{}][0] of the witness that was overwritten", j), r[0].as_bytes().iter().copied()));
+        }
+        let mut w_old = RangeWitness::init(t.values.iter().zip(old_r.iter()).map(|(v, r)| CommitmentOpening::new(*v, r.clone())).collect())
+            .map_err(|e| format!("{:?}", e))?;
+        let mut o_old = CommitmentOpening::new(t.values[0], old_r[0].clone());
+        let o_new = CommitmentOpening::new(t.values[0], t.blindings[0].clone());
+        alloc::capture_start();
+        w_old.clone_from(&t.w);
+        o_old.clone_from(&o_new);
+        let c = alloc::capture_stop();
+        scan("clone_from into an existing RangeWitness / CommitmentOpening", c, &pats, &mut stats)?;
+        alloc::capture_start();
+        drop(w_old);
+        drop(o_old);
+        drop(o_new);
+        let c_drop = alloc::capture_stop();
+        wipe(old_r);
+        scan("drop of a RangeWitness / CommitmentOpening that was overwritten through clone_from", c_drop, &pats, &mut stats)?;
+    }
+    // ---- a witness assembled by hand (public fields) in which the LAST opening of an aggregate carries one blinding factor
+    // fewer than the degree it declares: the prover takes it (the missing component acts as zero)
+    if cfg.m >= 2 && cfg.ext >= 2 {
+        let mut rs = t.blindings.clone();
+        rs[cfg.m - 1].pop();
+        let cs: Vec<RistrettoPoint> = t
+            .values
+            .iter()
+            .zip(rs.iter())
+            .map(|(v, r)| t.params.pc_gens().commit(&Scalar::from(*v), r).map_err(|e| format!("{:?}", e)))
+            .collect::<Result<_, _>>()?;
+        let st_h = RangeStatement::init(t.params.clone(), cs, t.promises.clone(), None).map_err(|e| format!("{:?}", e))?;
+        let w_h = RangeWitness {
+            openings: t.values.iter().zip(rs.iter()).map(|(v, r)| CommitmentOpening::new(*v, r.clone())).collect(),
+            extension_degree: ext_of(cfg.ext),
+        };
+        let mut tr = t.transcript();
+        let mut rng = tspec.rng.make();
+        alloc::capture_start();
+        let r = guarded(|| R::prove(&mut tr, &st_h, &w_h, &mut rng).is_ok());
+        let c = alloc::capture_stop();
+        r?;
+        scan("prove with a hand-assembled witness whose last opening is one blinding factor short", c, &secrets, &mut stats)?;
+        alloc::capture_start();
+        drop(w_h);
+        scan("drop of that witness", alloc::capture_stop(), &secrets, &mut stats)?;
+        drop(st_h);
+        wipe(rs);
     }
     let mask = ExtendedMask::assign(ext_of(cfg.ext), t.blindings[0].clone()).map_err(|e| format!("{:?}", e))?;
     alloc::capture_start();
@@ -381,7 +446,9 @@ pub fn oracle(_ctx: &RunCtx, spec: &WipeSpec, log: &mut CaseLog) -> Result<(), S
     drop(mask);
     let c = alloc::capture_stop();
     // `blindings()` hands a plain copy to the caller; that copy is the caller's to wipe
-    drop(got);
+    if let Ok(g) = got {
+        wipe(g);
+    }
     scan("drop(ExtendedMask)", c, &secrets, &mut stats)?;
     // ---- statement: heap on drop, and the inline seed after drop_in_place
     let st2: RangeStatement<RistrettoPoint> = t.st.clone();
@@ -399,7 +466,7 @@ pub fn oracle(_ctx: &RunCtx, spec: &WipeSpec, log: &mut CaseLog) -> Result<(), S
             }
             std::alloc::dealloc(raw as *mut u8, std::alloc::Layout::new::<RangeStatement<RistrettoPoint>>());
         }
-        if find(&after, sd.as_bytes()) {
+        if after.windows(32).any(|w| w == sd.as_bytes()) {
             return Err("the seed held inline in a RangeStatement is still present after the statement was dropped".into());
         }
     }
@@ -418,7 +485,7 @@ pub fn oracle(_ctx: &RunCtx, spec: &WipeSpec, log: &mut CaseLog) -> Result<(), S
             }
             std::alloc::dealloc(raw as *mut u8, std::alloc::Layout::new::<RangeStatement<RistrettoPoint>>());
         }
-        if find(&after, sd.as_bytes()) {
+        if after.windows(32).any(|w| w == sd.as_bytes()) {
             return Err(format!(
                 "the seed held inline in a RangeStatement with {} commitments is still present after the statement was dropped",
                 cfg.m
@@ -474,7 +541,7 @@ pub fn def() -> PropertyDef {
                dealloc (the old block of a moving realloc included) while armed. Operations, each with its own capture window: prove; a prove call that is refused late (promise of the last aggregate member above its value) or early (a blinding generator of the public generator set is the identity); \
                a prove call refused because a 62-bit value does not fit the bit length (error value dropped inside the window; the value is also searched as decimal / hexadecimal text); verify_batch in RecoverAndVerify and RecoverOnly followed by drop of the returned masks; recovering verification of [valid seeded \
                member, invalid member] that fails at the final check or inside the per-proof loop; drop of RangeWitness, CommitmentOpening (and \
-               clone), ExtendedMask, RangeStatement; the same owners when their vectors have spare capacity that held two more blinding factors (drawn, then truncated) or one more opening (moved out), incl. a prove call with such a witness; drop_in_place of a boxed statement (also an aggregated one whose seed was set through the public field) followed by a volatile read of its bytes. Oracle: no \
+               clone), ExtendedMask, RangeStatement; the same owners when their vectors have spare capacity that held two more blinding factors (drawn, then truncated) or one more opening (moved out), incl. a prove call with such a witness; Clone::clone_from into an existing witness / opening of lower degree (and its later drop); a prove call with a hand-assembled witness whose last opening is one blinding factor short; drop_in_place of a boxed statement (also an aggregated one whose seed was set through the public field) followed by a volatile read of its bytes. Oracle: no \
                freed block (no statement byte) contains a blinding scalar / mask component, the seed, a 64-bit value in little-endian form or as decimal / hexadecimal text, or a \
                16-word run spelling the top bits of value - promise as 0/1, (bit-1) or (bit-z) scalars (z from a first, tapped run of the same \
                deterministic case). Non-trivial = a case with a seed or degree >= 2 in which freed blocks >= 32 bytes were scanned; distinct by \
